@@ -434,42 +434,33 @@ impl World {
         let value: Value = store.get(Some(pending), &key).map_err(|e| {
             e.to_string()
         })?.ok_or("task vanished")?;
+        // Claim it the way the queue does: move it to the running scope
+        // under a key with the claim time.
+        let running = Ident::make("running");
+        let running_key = Ident::boxed_from_string(
+            format!("{now}-{wanted}")
+        ).map_err(|e| e.to_string())?;
+        store.store(Some(running), &running_key, &value).map_err(|e| {
+            e.to_string()
+        })?;
+        store.drop_key(Some(pending), &key).map_err(|e| e.to_string())?;
         let task: Task = serde_json::from_value(value).map_err(|e| {
             format!("cannot parse task {key}: {e}")
         })?;
-        let task_again = task.clone();
         let res = verif_process_task(
             &self.env.slow, task, self.env.started
         ).map_err(|e| format!("fatal task error in {wanted}: {e}"))?;
         let tasks = krill.tasks();
+        // ... and apply the result the way scheduler::run does.
         match res {
-            TaskResult::Done => {
-                // the task may have been replaced meanwhile
-                if store.has(Some(pending), &key).unwrap_or(false) {
-                    store.drop_key(Some(pending), &key).map_err(|e| {
-                        e.to_string()
-                    })?;
-                }
-            }
+            TaskResult::Done => tasks.finish(&running_key),
             TaskResult::FollowUp(task, prio) => {
-                if store.has(Some(pending), &key).unwrap_or(false) {
-                    store.drop_key(Some(pending), &key).map_err(|e| {
-                        e.to_string()
-                    })?;
-                }
-                tasks.schedule(task, prio).map_err(|e| e.to_string())?;
+                tasks.schedule_and_finish_existing(task, prio)
             }
             TaskResult::Reschedule(prio) => {
-                if store.has(Some(pending), &key).unwrap_or(false) {
-                    store.drop_key(Some(pending), &key).map_err(|e| {
-                        e.to_string()
-                    })?;
-                }
-                tasks.schedule(task_again, prio).map_err(|e| {
-                    e.to_string()
-                })?;
+                tasks.reschedule(&running_key, prio)
             }
-        }
+        }.map_err(|e| format!("queue error after {wanted}: {e}"))?;
         Ok(Some(wanted.to_string()))
     }
 
@@ -1369,6 +1360,29 @@ pub fn list_arg(v: &Value, key: &str) -> Vec<String> {
     str_list(v, key)
 }
 
+/// Classifies a task name: [kind, ca] with kind one of sync_parent,
+/// sync_repo, rc_removed, other.
+fn task_kind(name: &str, top: &str) -> Value {
+    if let Some(ca) = name.strip_prefix("sync_repo_") {
+        if ca != "ta" {
+            return json!(["sync_repo", ca])
+        }
+    }
+    else if let Some(rest) = name.strip_prefix("sync_")
+        && let Some((ca, _)) = rest.split_once("_with_parent_")
+    {
+        if ca != top {
+            return json!(["sync_parent", ca])
+        }
+    }
+    else if let Some(rest) = name.strip_prefix("resource_class_removed_ca_")
+        && let Some((ca, _)) = rest.split_once("_parent_")
+    {
+        return json!(["rc_removed", ca])
+    }
+    json!(["other", name])
+}
+
 fn roa_arg(action: &Value) -> String {
     match action.get("r") {
         Some(Value::Array(a)) => {
@@ -1384,6 +1398,24 @@ pub fn apply_action(w: &mut World, action: &Value) -> Result<Value, String> {
     match a {
         "AddCa" => {
             let c = str_arg(action, "c");
+            // A generated behaviour may not be applicable to the real state
+            // (the code chooses between due tasks differently than the
+            // generator did): creating a CA under a parent that does not
+            // hold the resources would leave a half set-up CA behind.
+            let p = str_arg(action, "p");
+            if !p.is_empty() && p != "ta" {
+                let wanted = resources(&list_arg(action, "res"));
+                let ok = w.env.krill.ca_manager().get_ca(&ca_handle(p))
+                    .map(|ca| {
+                        !wanted.is_empty()
+                        && ca.all_resources().contains(&wanted)
+                    }).unwrap_or(false);
+                let exists = w.env.krill.ca_manager().has_ca(&ca_handle(c))
+                    .unwrap_or(false);
+                if !ok || exists || w.cas.contains(&c.to_string()) {
+                    return Ok(json!({"skipped": true}))
+                }
+            }
             w.add_ca(c)?;
             let p = str_arg(action, "p");
             if !p.is_empty() {
@@ -1470,6 +1502,18 @@ pub fn apply_action(w: &mut World, action: &Value) -> Result<Value, String> {
             })
         }
         "Step" => {
+            // no task named: take the due task whose name comes first (the
+            // real queue breaks ties between equal time stamps arbitrarily;
+            // a fixed choice keeps replays reproducible)
+            let first = w.project_tasks()["due"].as_array().and_then(|a| {
+                a.first().and_then(|x| x.as_str().map(String::from))
+            });
+            if let Some(name) = first {
+                return Ok(match w.step_named(&name)? {
+                    Some(name) => json!({"task": name}),
+                    None => json!({"task": "none"}),
+                })
+            }
             Ok(match w.step_task()? {
                 Some(name) => json!({"task": name}),
                 None => json!({"task": "none"}),
@@ -1616,12 +1660,20 @@ pub fn run(behaviours: &Path, out: &Path, workdir: &Path, memory: bool) {
             let action = &action;
             let mut line = action.clone();
             let res = guarded(|| apply_action(&mut world, action));
+            if let Outcome::Ok(Ok(v)) = &res
+                && v.get("skipped").is_some()
+            {
+                continue
+            }
             line["ev"] = json!(a);
             match res {
                 Outcome::Ok(Ok(v)) => {
                     line["status"] = json!("ok");
                     if let Some(t) = v.get("task") {
                         line["task"] = t.clone();
+                        line["tk"] = task_kind(
+                            t.as_str().unwrap_or(""), &world.top
+                        );
                     }
                     else if !v.is_string() {
                         line["out"] = v;
